@@ -159,10 +159,18 @@ func judge(c Case, w *vkit.W) {
 	}
 	refOut, err := c.call(nil)
 	if err != nil {
-		w.Fail(c, "formatter-error", fmt.Sprintf("%s formatter into nil: %v", c.Pkg, err))
+		// the statement compares with "the bytes produced when formatting into an empty buffer": where that fails there is
+		// nothing to compare with (whether a value can be formatted at all is the business of C01, C02, C05, C13)
+		w.Class("info_formatter_error_on_empty_buffer")
 		return
 	}
 	refCopy := append([]byte{}, refOut...)
+	// between the two renderings of this value the previous case's value is rendered once more (a history A, B, A):
+	// programs alternate between a few values all the time
+	if prev, ok := w.Prev.(Case); ok && prev.Pkg != "urn" && prev.Parsed == "" && prev.Settings == c.Settings && w.Flip() {
+		_, _ = prev.call([]byte("between: "))
+	}
+	w.Prev = c
 	if c.Pkg == "sem" {
 		want := ref.SemText(c.Major, c.Minor, c.Patch, c.Pre, c.Build)
 		if c.Flags&int(sem.FormatTag) != 0 {
@@ -371,6 +379,30 @@ func TestCheck(t *testing.T) {
 								c.Flags, c.Prefix, c.Spare, c.Settings = flags, vkit.B(p), sp, true
 								judge(c, w)
 								w.EvalRandom(vkit.Hash64("settings", pkg, fmt.Sprint(base), strconv.Itoa(flags), p, strconv.Itoa(sp)), nontrivial(c))
+							}
+						}
+					}
+				}
+			}
+		})
+	})
+
+	r.Phase("long prefixes: 65,537 and 1,048,577 caller bytes in front (with spare capacity 0 and 4200) x boundary values x three flag words", func() {
+		r.Parallel(5, 1, func(w *vkit.W, lo, hi int64) {
+			for pi := lo; pi < hi; pi++ {
+				pkg := []string{"date", "roman", "sem", "size", "uu"}[pi]
+				for _, n := range []int{1<<16 + 1, 1<<20 + 1} {
+					prefix := strings.Repeat(alphabets[pkg], n/len(alphabets[pkg])+1)[:n]
+					for vi, base := range values(pkg) {
+						if vi%3 != 0 && n > 1<<16+1 {
+							continue
+						}
+						for _, flags := range []int{0, flagCounts[pkg] - 1, flagCounts[pkg] / 2} {
+							for _, sp := range []int{0, 4200} {
+								c := base
+								c.Flags, c.Prefix, c.Spare = flags, vkit.B(prefix), sp
+								judge(c, w)
+								w.EvalRandom(vkit.Hash64("long", pkg, fmt.Sprint(base), strconv.Itoa(flags), strconv.Itoa(n), strconv.Itoa(sp)), true)
 							}
 						}
 					}
